@@ -25,6 +25,10 @@ def check_seq(parts, variant="shipped"):
     for p in parts:
         t, o = impl.parse_tree(p, "exec", variant=variant)
         if t is None:
+            if tw is not None and impl.cpython_parse(p).get("k") == "tree":
+                # a complete Python statement sequence (CPython's verdict) that is refused alone but accepted with more
+                # text after it: what follows changed how the part itself is read
+                return {"kind": "part-rejected-alone-but-accepted-in-sequence", "part": p, "alone": {k: v for k, v in o.items() if k in ("k", "cls", "msg", "lineno", "offset")}}
             return {"skip": "part-rejected", "part": p[:60]}
         bodies.extend(shift(t, off).body)
         off += p.count("\n")
